@@ -30,6 +30,11 @@ Definition served (dir : string) (a : apk) : Prop :=
 Definition builders_ok (bs : list builder) : Prop :=
   forall dir a, In (BPackage dir a) bs -> served dir a.
 
+(* the uncompressed tar the origin stands for under <h>.dat.tar is the gunzip
+   of the data section it serves under <h>.dat.tar.gz *)
+Definition origin_gunzip (gunzip : content -> content) : Prop :=
+  forall dir h, gunzip (origin (PMember dir MDat h)) = origin (PMember dir MTar h).
+
 (* what a build obtains for one package (directory [dir], control checksum
    [ctlh]) without a cache, and with the cache in state [d] *)
 Variable datahash_of : content -> string.
